@@ -40,13 +40,15 @@ struct Obs {
     /// the same abstract value built by a different construction history (longer buffer first, then the setter):
     /// 1 = equal to the directly constructed value, same bytes, survives the round trip; 0 = not; -1 = no such API
     alt: i64,
+    /// Ipv4Header::write(): the serialiser that recomputes the header checksum
+    write2: Vec<u8>,
 }
 impl Obs {
     fn json(&self, id: &str, ty: &str, f: &[i64]) -> Value {
         json!({"ev": "wire", "id": id, "type": ty, "f": f, "to_bytes": self.to_bytes, "write": self.write,
                "slice": self.slice.clone().unwrap_or_default(), "has_slice": if self.slice.is_some() { 1 } else { 0 },
                "hlen": self.hlen, "dec_f": self.dec_f, "rest": self.rest, "eq": self.eq, "read_eq": self.read_eq, "read_used": self.read_used,
-               "from_bytes_eq": self.from_bytes_eq, "alt": self.alt})
+               "from_bytes_eq": self.from_bytes_eq, "alt": self.alt, "write2": self.write2})
     }
 }
 const TAIL: [u8; 3] = [0xEE, 0xEE, 0xEE];
@@ -152,6 +154,7 @@ pub fn value_case(id: &str, ty: &str, f: &[i64]) -> Value {
             let cs = h.calc_header_checksum().to_be_bytes();
             exp[10] = cs[0]; exp[11] = cs[1];
             o.from_bytes_eq = b2i(w2 == exp);
+            o.write2 = w2;
         }
         "auth" => {
             let h = IpAuthHeader::new(IpNumber(f[0] as u8), be32(&f[1..]), be32(&f[5..]), &u8s(&f[9..])).unwrap();
